@@ -2751,10 +2751,11 @@ func deserialize_vector_CompiledInstruction(deserializer serde.Deserializer) ([]
 	if err != nil {
 		return nil, err
 	}
-	obj := make([]CompiledInstruction, length)
-	for i := range obj {
+	// the length comes from the input: grow with the elements actually present instead of trusting it
+	obj := make([]CompiledInstruction, 0, min(length, 1024))
+	for i := uint64(0); i < length; i++ {
 		if val, err := DeserializeCompiledInstruction(deserializer); err == nil {
-			obj[i] = val
+			obj = append(obj, val)
 		} else {
 			return nil, err
 		}
@@ -2779,10 +2780,11 @@ func deserialize_vector_InnerInstructions(deserializer serde.Deserializer) ([]In
 	if err != nil {
 		return nil, err
 	}
-	obj := make([]InnerInstructions, length)
-	for i := range obj {
+	// the length comes from the input: grow with the elements actually present instead of trusting it
+	obj := make([]InnerInstructions, 0, min(length, 1024))
+	for i := uint64(0); i < length; i++ {
 		if val, err := DeserializeInnerInstructions(deserializer); err == nil {
-			obj[i] = val
+			obj = append(obj, val)
 		} else {
 			return nil, err
 		}
@@ -2807,10 +2809,11 @@ func deserialize_vector_u64(deserializer serde.Deserializer) ([]uint64, error) {
 	if err != nil {
 		return nil, err
 	}
-	obj := make([]uint64, length)
-	for i := range obj {
+	// the length comes from the input: grow with the elements actually present instead of trusting it
+	obj := make([]uint64, 0, min(length, 1024))
+	for i := uint64(0); i < length; i++ {
 		if val, err := deserializer.DeserializeU64(); err == nil {
-			obj[i] = val
+			obj = append(obj, val)
 		} else {
 			return nil, err
 		}
